@@ -88,6 +88,14 @@ pub fn dispatch(_st: &mut State, op: &str, f: &[String]) -> String {
             let m = matcher_for(&f[0]);
             cmp_str(m.compare_to_latest(&f[1], &f[2])).into()
         }
+        // optional oracle for the Cargo reference spec: the semver crate itself
+        "oracle.cargo" => match semver::VersionReq::parse(&f[0]) {
+            Err(_) => "invalid".into(),
+            Ok(req) => match semver::Version::parse(&f[1]) {
+                Err(_) => "badv".into(),
+                Ok(v) => tf(req.matches(&v)).into(),
+            },
+        },
         _ => format!("UNKNOWN-OP {op}"),
     }
 }
